@@ -59,6 +59,7 @@ func (c *genCfg) inputs(emit func(string)) {
 			exhaustive("", sqlAlpha, 3, emit)
 		}
 		truncations(sqlTemplates, sqlDecoys, emit)
+		byteSweep(sqlSweepSeeds, emit)
 		sqlLengthBoundaries(emit)
 		tableDrivenSQL(emit)
 		for i, k := 0, n(120000, 2500000); i < k; i++ {
@@ -86,6 +87,7 @@ func (c *genCfg) inputs(emit func(string)) {
 			}
 		}
 		truncations(htmlTemplates, htmlDecoys, emit)
+		byteSweep(htmlSweepSeeds, emit)
 		tableDrivenHTML(emit)
 		lateVectorsHTML(thorough, emit)
 		for i, k := 0, n(150000, 3000000); i < k; i++ {
@@ -98,6 +100,7 @@ func (c *genCfg) inputs(emit func(string)) {
 		for _, s := range corpus("xssunit") {
 			emit(s)
 		}
+		byteSweep(unitSweepSeeds, emit)
 		unitAlpha := []byte("&#xX;0169aAfFgjJ:\x00\n \x7f\xe9-")
 		if thorough {
 			exhaustive("", unitAlpha, 5, emit)
